@@ -704,14 +704,428 @@ fn within(c: &TransactionValidationConfig, net: Option<u8>, t: &TxSum) -> (bool,
     }
 }
 
+
+// ------------------------------------------------------------------------------------------------
+// deterministic boundary family (identical for every seed; runs before the random stream)
+// ------------------------------------------------------------------------------------------------
+struct BCase {
+    class: String,
+    cfg_name: &'static str,
+    net: Option<u8>,
+    spec: TxSpec,
+    expect: &'static str,
+}
+/// verdict without the reported numbers: "accept" | "<Constructor> <location / sub-kind>"
+fn verdict_tag(o: &Out) -> String {
+    match o {
+        Out::AcceptV1 | Out::AcceptV2 { .. } => "accept".into(),
+        Out::Unexpected(w) => format!("unexpected {}", w),
+        Out::Reject(e) => {
+            let inner = e.trim_start_matches('(').trim_end_matches(')').replace("(NonRoot ", "NonRoot_").replace(')', "");
+            let toks: Vec<&str> = inner.split(' ').filter(|t| !t.is_empty() && !t.chars().all(|c| c.is_ascii_digit())).collect();
+            toks.join(" ")
+        }
+    }
+}
+fn ispec(start: u64, end: u64) -> IntentSpec {
+    IntentSpec { network: NET, start, end, min_ts: None, max_ts: None, msg: Msg::None, refs: 0, fillers: 1, blobs: 0, parent: None, sigs: 0 }
+}
+fn tspec(kind: Kind, tip: u32, root: IntentSpec, subs: Vec<IntentSpec>) -> TxSpec {
+    TxSpec { kind, tip, root, subs, batch_delta: 0, payload_target: None }
+}
+const MAXE: u64 = u64::MAX;
+
+fn boundary_family() -> Vec<BCase> {
+    let mut v: Vec<BCase> = vec![];
+    let mut add = |class: &str, cfg_name: &'static str, net: Option<u8>, spec: TxSpec, expect: &'static str| {
+        v.push(BCase { class: format!("b_{}_{}", cfg_name, class), cfg_name, net, spec, expect });
+    };
+    let n = Some(NET);
+    let s = "variant_small";
+    let st = "variant_small_tight_totals";
+    let plain = |mime: usize, msg: usize, bytes: bool| Msg::Plain { mime, msg, bytes };
+    let enc = |e: usize, d: Vec<(u8, u8, usize)>| Msg::Enc { enc: e, decs: d };
+
+    // ======================= V1 under the small configuration =======================
+    let v1 = |f: &dyn Fn(&mut IntentSpec)| {
+        let mut r = ispec(100, 105);
+        r.sigs = 1;
+        f(&mut r);
+        tspec(Kind::V1, 2, r, vec![])
+    };
+    add("v1_base", s, n, v1(&|_| {}), "accept");
+    for (k, e) in [(2usize, "accept"), (3, "accept"), (4, "TooManySignatures Root")] {
+        add(&format!("v1_sigs_{}", k), s, n, v1(&|r| r.sigs = k), e);
+    }
+    add("v1_sigs_total_at", st, n, v1(&|r| r.sigs = 2), "accept");
+    add("v1_sigs_total_over", st, n, v1(&|r| r.sigs = 3), "TooManySignatures Across");
+    add("v1_network_wrong", s, n, v1(&|r| r.network = 7), "HeaderError Root InvalidNetwork");
+    add("v1_network_wrong_agnostic", s, None, v1(&|r| r.network = 7), "accept");
+    for (name, st_, en, e) in [
+        ("empty", 100u64, 100u64, "HeaderError Root InvalidEpochRange"),
+        ("negative", 100, 99, "HeaderError Root InvalidEpochRange"),
+        ("one", 100, 101, "accept"),
+        ("range_minus1", 100, 149, "accept"),
+        ("range_at", 100, 150, "accept"),
+        ("range_plus1", 100, 151, "HeaderError Root InvalidEpochRange"),
+        ("zero_start", 0, 50, "accept"),
+        ("max_end_at_u64max", MAXE - 50, MAXE, "accept"),
+        ("checked_add_overflow", MAXE - 49, MAXE, "HeaderError Root InvalidEpochRange"),
+        ("checked_add_overflow_short", MAXE - 49, MAXE - 48, "HeaderError Root InvalidEpochRange"),
+        ("below_u64max_over_range", MAXE - 51, MAXE, "HeaderError Root InvalidEpochRange"),
+        ("start_u64max", MAXE, MAXE, "HeaderError Root InvalidEpochRange"),
+    ] {
+        add(&format!("v1_epoch_{}", name), s, n, v1(&|r| { r.start = st_; r.end = en; }), e);
+    }
+    for (t, e) in [(1u32, "HeaderError Root InvalidTip"), (2, "accept"), (9, "accept"), (10, "HeaderError Root InvalidTip")] {
+        let mut x = v1(&|_| {});
+        x.tip = t;
+        add(&format!("v1_tip_{}", t), s, n, x, e);
+    }
+    add("v1_order_network_before_epoch", s, n, v1(&|r| { r.network = 7; r.end = 100; }), "HeaderError Root InvalidNetwork");
+    let mut x = v1(&|r| r.end = 100);
+    x.tip = 10;
+    add("v1_order_epoch_before_tip", s, n, x, "HeaderError Root InvalidEpochRange");
+    add("v1_order_sigs_before_header", s, n, v1(&|r| { r.sigs = 4; r.network = 7; }), "TooManySignatures Root");
+    for (name, m, e) in [
+        ("mime_5", plain(5, 0, false), "accept"),
+        ("mime_6", plain(6, 0, false), "accept"),
+        ("mime_7", plain(7, 0, false), "MessageError Root MimeTypeTooLong"),
+        ("plain_19", plain(0, 19, false), "accept"),
+        ("plain_20", plain(0, 20, false), "accept"),
+        ("plain_21", plain(0, 21, false), "MessageError Root PlaintextMessageTooLong"),
+        ("plain_bytes_20", plain(0, 20, true), "accept"),
+        ("plain_bytes_21", plain(0, 21, true), "MessageError Root PlaintextMessageTooLong"),
+        ("mime_before_plain", plain(7, 21, false), "MessageError Root MimeTypeTooLong"),
+        ("plain_empty", plain(0, 0, false), "accept"),
+        ("enc_29", enc(29, vec![(0, 0, 1)]), "accept"),
+        ("enc_30", enc(30, vec![(0, 0, 1)]), "accept"),
+        ("enc_31", enc(31, vec![(0, 0, 1)]), "MessageError Root EncryptedMessageTooLong"),
+        ("enc_len_before_no_decryptors", enc(31, vec![]), "MessageError Root EncryptedMessageTooLong"),
+        ("enc_no_decryptors", enc(1, vec![]), "MessageError Root NoDecryptors"),
+        ("enc_curve_mismatch_first", enc(1, vec![(0, 1, 1)]), "MessageError Root MismatchingDecryptorCurves"),
+        ("enc_curve_mismatch_second", enc(1, vec![(0, 0, 1), (1, 0, 1)]), "MessageError Root MismatchingDecryptorCurves"),
+        ("enc_zero_decryptors_first", enc(1, vec![(0, 0, 0)]), "MessageError Root NoDecryptorsForCurveType"),
+        ("enc_zero_decryptors_second", enc(1, vec![(0, 0, 1), (1, 1, 0)]), "MessageError Root NoDecryptorsForCurveType"),
+        ("enc_mismatch_before_zero", enc(1, vec![(1, 0, 0)]), "MessageError Root MismatchingDecryptorCurves"),
+        ("enc_zero_before_too_many", enc(1, vec![(0, 0, 5), (1, 1, 0)]), "MessageError Root NoDecryptorsForCurveType"),
+        ("enc_decryptors_3", enc(1, vec![(0, 0, 3)]), "accept"),
+        ("enc_decryptors_4", enc(1, vec![(0, 0, 4)]), "accept"),
+        ("enc_decryptors_5", enc(1, vec![(0, 0, 5)]), "MessageError Root TooManyDecryptors"),
+        ("enc_decryptors_secp_4", enc(1, vec![(1, 1, 4)]), "accept"),
+        ("enc_decryptors_2_plus_2", enc(1, vec![(0, 0, 2), (1, 1, 2)]), "accept"),
+        ("enc_decryptors_2_plus_3", enc(1, vec![(1, 1, 2), (0, 0, 3)]), "MessageError Root TooManyDecryptors"),
+        ("enc_empty_payload", enc(0, vec![(0, 0, 1)]), "accept"),
+    ] {
+        let m2 = m.clone();
+        add(&format!("v1_msg_{}", name), s, n, v1(&|r| r.msg = m2.clone()), e);
+    }
+    add("v1_order_header_before_message", s, n, v1(&|r| { r.end = 100; r.msg = Msg::Plain { mime: 7, msg: 0, bytes: false }; }), "HeaderError Root InvalidEpochRange");
+    add("v1_order_message_before_refs", s, n, v1(&|r| { r.refs = 5; r.msg = Msg::Plain { mime: 7, msg: 0, bytes: false }; }), "MessageError Root MimeTypeTooLong");
+    for (k, e) in [(3usize, "accept"), (4, "accept"), (5, "TooManyReferences Root")] {
+        add(&format!("v1_refs_{}", k), s, n, v1(&|r| r.refs = k), e);
+    }
+    add("v1_refs_total_at", st, n, v1(&|r| r.refs = 3), "accept");
+    add("v1_refs_total_over", st, n, v1(&|r| r.refs = 4), "TooManyReferences Across");
+    add("v1_order_refs_total_before_sigs_total", st, n, v1(&|r| { r.refs = 4; r.sigs = 3; }), "TooManyReferences Across");
+    for (k, e) in [(0usize, "accept"), (11, "accept"), (12, "accept"), (13, "TooManyInstructions Root")] {
+        add(&format!("v1_instructions_{}", k), s, n, v1(&|r| r.fillers = k), e);
+    }
+    add("v1_order_refs_before_instructions", s, n, v1(&|r| { r.refs = 5; r.fillers = 8; }), "TooManyReferences Root");
+    add("v1_instructions_at_with_refs", s, n, v1(&|r| { r.refs = 4; r.fillers = 8; }), "accept");
+    for (k, e) in [(1usize, "accept"), (2, "accept"), (3, "PrepareTooManyValues VBlob")] {
+        add(&format!("v1_blobs_{}", k), s, n, v1(&|r| r.blobs = k), e);
+    }
+    for (t, e) in [(5999usize, "accept"), (6000, "accept"), (6001, "PrepareTransactionTooLarge")] {
+        let mut x = v1(&|_| {});
+        x.payload_target = Some(t);
+        add(&format!("v1_payload_{}", t), s, n, x, e);
+    }
+    let mut x = v1(&|r| r.blobs = 3);
+    x.payload_target = Some(6001);
+    add("v1_order_payload_before_blobs", s, n, x, "PrepareTransactionTooLarge");
+    add("v1_order_blobs_before_sigs", s, n, v1(&|r| { r.blobs = 3; r.sigs = 4; }), "PrepareTooManyValues VBlob");
+
+    // ======================= V1 under the shipped configurations =======================
+    for cfgn in ["latest", "babylon"] {
+        let w = |f: &dyn Fn(&mut IntentSpec)| {
+            let mut r = ispec(100, 105);
+            r.sigs = 1;
+            f(&mut r);
+            tspec(Kind::V1, 0, r, vec![])
+        };
+        add("v1_base", cfgn, n, w(&|_| {}), "accept");
+        add("v1_sigs_16", cfgn, n, w(&|r| r.sigs = 16), "accept");
+        add("v1_sigs_17", cfgn, n, w(&|r| r.sigs = 17), "TooManySignatures Root");
+        add("v1_blobs_64", cfgn, n, w(&|r| r.blobs = 64), "accept");
+        add("v1_blobs_65", cfgn, n, w(&|r| r.blobs = 65), "PrepareTooManyValues VBlob");
+        add("v1_epoch_8640", cfgn, n, w(&|r| r.end = 100 + 8640), "accept");
+        add("v1_epoch_8641", cfgn, n, w(&|r| r.end = 100 + 8641), "HeaderError Root InvalidEpochRange");
+        add("v1_mime_128", cfgn, n, w(&|r| r.msg = Msg::Plain { mime: 128, msg: 1, bytes: false }), "accept");
+        add("v1_mime_129", cfgn, n, w(&|r| r.msg = Msg::Plain { mime: 129, msg: 1, bytes: false }), "MessageError Root MimeTypeTooLong");
+        add("v1_plain_2048", cfgn, n, w(&|r| r.msg = Msg::Plain { mime: 1, msg: 2048, bytes: true }), "accept");
+        add("v1_plain_2049", cfgn, n, w(&|r| r.msg = Msg::Plain { mime: 1, msg: 2049, bytes: true }), "MessageError Root PlaintextMessageTooLong");
+        add("v1_enc_2076", cfgn, n, w(&|r| r.msg = Msg::Enc { enc: 2076, decs: vec![(0, 0, 1)] }), "accept");
+        add("v1_enc_2077", cfgn, n, w(&|r| r.msg = Msg::Enc { enc: 2077, decs: vec![(0, 0, 1)] }), "MessageError Root EncryptedMessageTooLong");
+        add("v1_decryptors_20", cfgn, n, w(&|r| r.msg = Msg::Enc { enc: 1, decs: vec![(0, 0, 12), (1, 1, 8)] }), "accept");
+        add("v1_decryptors_21", cfgn, n, w(&|r| r.msg = Msg::Enc { enc: 1, decs: vec![(0, 0, 12), (1, 1, 9)] }), "MessageError Root TooManyDecryptors");
+        let mut x = w(&|_| {});
+        x.tip = 65535;
+        add("v1_tip_u16_max", cfgn, n, x, "accept");
+        let mut x = w(&|_| {});
+        x.payload_target = Some(1024 * 1024);
+        add("v1_payload_1mib", cfgn, n, x, "accept");
+        let mut x = w(&|_| {});
+        x.payload_target = Some(1024 * 1024 + 1);
+        add("v1_payload_1mib_plus1", cfgn, n, x, "PrepareTransactionTooLarge");
+    }
+    {
+        let w = |f: &dyn Fn(&mut IntentSpec)| {
+            let mut r = ispec(100, 105);
+            f(&mut r);
+            tspec(Kind::V1, 0, r, vec![])
+        };
+        add("v1_refs_512", "latest", n, w(&|r| r.refs = 512), "accept");
+        add("v1_refs_513", "latest", n, w(&|r| r.refs = 513), "TooManyReferences Root");
+        add("v1_instructions_1000", "latest", n, w(&|r| r.fillers = 1000), "accept");
+        add("v1_instructions_1001", "latest", n, w(&|r| r.fillers = 1001), "TooManyInstructions Root");
+        add("v1_refs_513_unbounded", "babylon", n, w(&|r| r.refs = 513), "accept");
+        add("v1_instructions_1001_unbounded", "babylon", n, w(&|r| r.fillers = 1001), "accept");
+    }
+
+    // ======================= V2 / partial under the small configuration =======================
+    let sub = |f: &dyn Fn(&mut IntentSpec)| {
+        let mut r = ispec(100, 105);
+        r.fillers = 0;
+        f(&mut r);
+        r
+    };
+    let v2 = |f: &dyn Fn(&mut TxSpec)| {
+        let mut r = ispec(100, 105);
+        r.sigs = 1;
+        let mut t = tspec(Kind::V2, 3, r, vec![]);
+        f(&mut t);
+        t
+    };
+    let pt = |f: &dyn Fn(&mut TxSpec)| {
+        let mut r = ispec(100, 105);
+        r.sigs = 1;
+        let mut t = tspec(Kind::Partial, 0, r, vec![]);
+        f(&mut t);
+        t
+    };
+    add("v2_base", s, n, v2(&|_| {}), "accept");
+    add("v2_base_one_sub", s, n, v2(&|t| t.subs = vec![sub(&|_| {})]), "accept");
+    add("partial_base", s, n, pt(&|_| {}), "accept");
+    add("partial_base_one_sub", s, n, pt(&|t| t.subs = vec![sub(&|_| {})]), "accept");
+    for (tip, e) in [(2u32, "HeaderError Root InvalidTip"), (3, "accept"), (40, "accept"), (41, "HeaderError Root InvalidTip")] {
+        add(&format!("v2_tip_{}", tip), s, n, v2(&|t| t.tip = tip), e);
+    }
+    add("v2_order_tip_before_network", s, n, v2(&|t| { t.tip = 41; t.root.network = 7; }), "HeaderError Root InvalidTip");
+    add("v2_network_wrong_root", s, n, v2(&|t| t.root.network = 7), "HeaderError Root InvalidNetwork");
+    add("v2_network_wrong_sub1", s, n, v2(&|t| t.subs = vec![sub(&|_| {}), sub(&|x| x.network = 7)]), "HeaderError NonRoot_1 InvalidNetwork");
+    add("v2_network_wrong_agnostic", s, None, v2(&|t| t.subs = vec![sub(&|x| x.network = 7)]), "accept");
+    add("v2_root_sigs_3", s, n, v2(&|t| t.root.sigs = 3), "accept");
+    add("v2_root_sigs_4", s, n, v2(&|t| t.root.sigs = 4), "TooManySignatures Root");
+    add("partial_root_sigs_4", s, n, pt(&|t| t.root.sigs = 4), "TooManySignatures Root");
+    add("v2_batch_sigs_3", s, n, v2(&|t| t.subs = vec![sub(&|x| x.sigs = 3)]), "accept");
+    add("v2_batch_sigs_4_first", s, n, v2(&|t| t.subs = vec![sub(&|x| x.sigs = 4), sub(&|_| {})]), "TooManySignatures NonRoot_0");
+    add("v2_batch_sigs_4_last", s, n, v2(&|t| t.subs = vec![sub(&|_| {}), sub(&|x| x.sigs = 4)]), "TooManySignatures NonRoot_1");
+    add("v2_batches_one_missing", s, n, v2(&|t| { t.subs = vec![sub(&|_| {})]; t.batch_delta = -1; }), "IncorrectNumberOfSubintentSignatureBatches");
+    add("v2_batches_one_extra", s, n, v2(&|t| { t.subs = vec![sub(&|_| {})]; t.batch_delta = 1; }), "IncorrectNumberOfSubintentSignatureBatches");
+    add("v2_batches_extra_without_subs", s, n, v2(&|t| t.batch_delta = 1), "IncorrectNumberOfSubintentSignatureBatches");
+    add("partial_batches_one_missing", s, n, pt(&|t| { t.subs = vec![sub(&|_| {})]; t.batch_delta = -1; }), "IncorrectNumberOfSubintentSignatureBatches");
+    add("v2_order_root_sigs_before_batches", s, n, v2(&|t| { t.root.sigs = 4; t.subs = vec![sub(&|_| {})]; t.batch_delta = -1; }), "TooManySignatures Root");
+    add("v2_order_batches_before_batch_sigs", s, n, v2(&|t| { t.subs = vec![sub(&|x| x.sigs = 4), sub(&|_| {})]; t.batch_delta = 1; }), "IncorrectNumberOfSubintentSignatureBatches");
+    add("v2_order_batch_sigs_before_header", s, n, v2(&|t| { t.root.network = 7; t.subs = vec![sub(&|x| x.sigs = 4)]; }), "TooManySignatures NonRoot_0");
+    // total signature validations (limit 8): the notary counts for a transaction intent only
+    add("v2_sigs_total_at", s, n, v2(&|t| { t.root.sigs = 3; t.subs = vec![sub(&|x| x.sigs = 3), sub(&|x| x.sigs = 1)]; }), "accept");
+    add("v2_sigs_total_over", s, n, v2(&|t| { t.root.sigs = 3; t.subs = vec![sub(&|x| x.sigs = 3), sub(&|x| x.sigs = 2)]; }), "TooManySignatures Across");
+    add("partial_sigs_total_at", s, n, pt(&|t| { t.root.sigs = 3; t.subs = vec![sub(&|x| x.sigs = 3), sub(&|x| x.sigs = 2)]; }), "accept");
+    add("partial_sigs_total_over", s, n, pt(&|t| { t.root.sigs = 3; t.subs = vec![sub(&|x| x.sigs = 3), sub(&|x| x.sigs = 3)]; }), "TooManySignatures Across");
+    // per-intent epoch window at a subintent
+    add("v2_sub_epoch_empty", s, n, v2(&|t| t.subs = vec![sub(&|x| x.end = 100)]), "HeaderError NonRoot_0 InvalidEpochRange");
+    add("v2_sub_epoch_range_at", s, n, v2(&|t| { t.root.end = 150; t.subs = vec![sub(&|x| x.end = 150)]; }), "accept");
+    add("v2_sub_epoch_range_plus1", s, n, v2(&|t| { t.root.end = 150; t.subs = vec![sub(&|x| x.end = 151)]; }), "HeaderError NonRoot_0 InvalidEpochRange");
+    add("v2_root_epoch_overflow_at", s, n, v2(&|t| { t.root.start = MAXE - 50; t.root.end = MAXE; }), "accept");
+    add("v2_root_epoch_overflow", s, n, v2(&|t| { t.root.start = MAXE - 49; t.root.end = MAXE; }), "HeaderError Root InvalidEpochRange");
+    // per-intent timestamp window
+    for (name, lo, hi, e) in [
+        ("lt", Some(5i64), Some(6i64), "accept"),
+        ("eq", Some(6), Some(6), "HeaderError Root InvalidTimestampRange"),
+        ("gt", Some(7), Some(6), "HeaderError Root InvalidTimestampRange"),
+        ("min_only", Some(7), None, "accept"),
+        ("max_only", None, Some(-7), "accept"),
+        ("negative_lt", Some(-6), Some(-5), "accept"),
+    ] {
+        add(&format!("v2_ts_{}", name), s, n, v2(&|t| { t.root.min_ts = lo; t.root.max_ts = hi; }), e);
+    }
+    add("v2_sub_ts_eq", s, n, v2(&|t| t.subs = vec![sub(&|x| { x.min_ts = Some(6); x.max_ts = Some(6); })]), "HeaderError NonRoot_0 InvalidTimestampRange");
+    add("v2_order_epoch_before_ts", s, n, v2(&|t| { t.root.end = 100; t.root.min_ts = Some(6); t.root.max_ts = Some(6); }), "HeaderError Root InvalidEpochRange");
+    add("v2_order_ts_before_across_epochs", s, n, v2(&|t| t.subs = vec![sub(&|x| { x.start = 105; x.end = 110; x.min_ts = Some(6); x.max_ts = Some(6); })]), "HeaderError NonRoot_0 InvalidTimestampRange");
+    // across-intent epoch window: touching / overlapping by one / nested / who is narrower / third intent
+    for (name, rs, re, subs_w, e) in [
+        ("overlap_one", 100u64, 105u64, vec![(104u64, 109u64)], "accept"),
+        ("touching", 100, 105, vec![(105, 110)], "HeaderError NonRoot_0 NoValidEpochRangeAcrossAllIntents"),
+        ("disjoint", 100, 105, vec![(106, 110)], "HeaderError NonRoot_0 NoValidEpochRangeAcrossAllIntents"),
+        ("sub_wider", 100, 105, vec![(99, 106)], "accept"),
+        ("sub_narrower", 100, 110, vec![(103, 104)], "accept"),
+        ("sub_earlier_overlap_one", 104, 109, vec![(100, 105)], "accept"),
+        ("sub_earlier_touching", 104, 109, vec![(100, 104)], "HeaderError NonRoot_0 NoValidEpochRangeAcrossAllIntents"),
+        ("equal_windows", 100, 105, vec![(100, 105)], "accept"),
+        ("third_narrows_to_one", 100, 110, vec![(102, 108), (107, 112)], "accept"),
+        ("third_empties", 100, 110, vec![(102, 108), (108, 112)], "HeaderError NonRoot_1 NoValidEpochRangeAcrossAllIntents"),
+        ("second_empties_before_third", 100, 105, vec![(105, 110), (100, 105)], "HeaderError NonRoot_0 NoValidEpochRangeAcrossAllIntents"),
+        ("max_of_starts_not_last", 100, 110, vec![(107, 112), (102, 108)], "accept"),
+        ("min_of_ends_not_last", 100, 110, vec![(100, 103), (102, 108)], "accept"),
+        ("max_start_first_then_short", 100, 110, vec![(107, 112), (100, 107)], "HeaderError NonRoot_1 NoValidEpochRangeAcrossAllIntents"),
+    ] {
+        let sw = subs_w.clone();
+        add(&format!("v2_across_epochs_{}", name), s, n, v2(&|t| {
+            t.root.start = rs;
+            t.root.end = re;
+            t.subs = sw.iter().map(|(a, b)| sub(&|x| { x.start = *a; x.end = *b; })).collect();
+        }), e);
+    }
+    add("partial_across_epochs_touching", s, n, pt(&|t| t.subs = vec![sub(&|x| { x.start = 105; x.end = 110; })]), "HeaderError NonRoot_0 NoValidEpochRangeAcrossAllIntents");
+    // across-intent timestamp window (root, sub0, sub1): (min,max) per intent
+    type W = (Option<i64>, Option<i64>);
+    let ts_cases: Vec<(&str, W, Vec<W>, &'static str)> = vec![
+        ("min_then_max_lt", (Some(5), None), vec![(None, Some(6))], "accept"),
+        ("min_then_max_eq", (Some(5), None), vec![(None, Some(5))], "HeaderError NonRoot_0 NoValidTimestampRangeAcrossAllIntents"),
+        ("max_then_min_lt", (None, Some(6)), vec![(Some(5), None)], "accept"),
+        ("max_then_min_eq", (None, Some(6)), vec![(Some(6), None)], "HeaderError NonRoot_0 NoValidTimestampRangeAcrossAllIntents"),
+        ("larger_min_replaces", (Some(5), None), vec![(Some(7), None), (None, Some(7))], "HeaderError NonRoot_1 NoValidTimestampRangeAcrossAllIntents"),
+        ("larger_min_replaces_ok", (Some(5), None), vec![(Some(7), None), (None, Some(8))], "accept"),
+        ("smaller_min_ignored", (Some(7), None), vec![(Some(5), None), (None, Some(6))], "HeaderError NonRoot_1 NoValidTimestampRangeAcrossAllIntents"),
+        ("smaller_min_ignored_ok", (Some(7), None), vec![(Some(5), None), (None, Some(8))], "accept"),
+        ("equal_min_kept", (Some(7), None), vec![(Some(7), None), (None, Some(8))], "accept"),
+        ("smaller_max_replaces", (None, Some(9)), vec![(None, Some(6)), (Some(6), None)], "HeaderError NonRoot_1 NoValidTimestampRangeAcrossAllIntents"),
+        ("smaller_max_replaces_ok", (None, Some(9)), vec![(None, Some(6)), (Some(5), None)], "accept"),
+        ("larger_max_ignored", (None, Some(6)), vec![(None, Some(9)), (Some(6), None)], "HeaderError NonRoot_1 NoValidTimestampRangeAcrossAllIntents"),
+        ("larger_max_ignored_ok", (None, Some(6)), vec![(None, Some(9)), (Some(5), None)], "accept"),
+        ("nested_windows", (Some(5), Some(9)), vec![(Some(6), Some(8))], "accept"),
+        ("both_sides_touching", (Some(5), Some(7)), vec![(Some(7), Some(9))], "HeaderError NonRoot_0 NoValidTimestampRangeAcrossAllIntents"),
+        ("both_sides_overlap_one", (Some(5), Some(8)), vec![(Some(7), Some(9))], "accept"),
+        ("none_everywhere_but_last", (None, None), vec![(None, None), (Some(1), Some(2))], "accept"),
+    ];
+    for (name, rw, sws, e) in ts_cases {
+        add(&format!("v2_across_ts_{}", name), s, n, v2(&|t| {
+            t.root.min_ts = rw.0;
+            t.root.max_ts = rw.1;
+            t.subs = sws.iter().map(|w| sub(&|x| { x.min_ts = w.0; x.max_ts = w.1; })).collect();
+        }), e);
+    }
+    // messages at a subintent (V2 message types)
+    add("v2_sub_mime_7", s, n, v2(&|t| t.subs = vec![sub(&|x| x.msg = Msg::Plain { mime: 7, msg: 0, bytes: false })]), "MessageError NonRoot_0 MimeTypeTooLong");
+    add("v2_root_plain_21", s, n, v2(&|t| t.root.msg = Msg::Plain { mime: 0, msg: 21, bytes: true }), "MessageError Root PlaintextMessageTooLong");
+    add("v2_root_enc_30", s, n, v2(&|t| t.root.msg = Msg::Enc { enc: 30, decs: vec![(1, 1, 1)] }), "accept");
+    add("v2_root_enc_31", s, n, v2(&|t| t.root.msg = Msg::Enc { enc: 31, decs: vec![(1, 1, 1)] }), "MessageError Root EncryptedMessageTooLong");
+    add("v2_sub_decryptors_2_plus_2", s, n, v2(&|t| t.subs = vec![sub(&|x| x.msg = Msg::Enc { enc: 1, decs: vec![(0, 0, 2), (1, 1, 2)] })]), "accept");
+    add("v2_sub_decryptors_2_plus_3", s, n, v2(&|t| t.subs = vec![sub(&|x| x.msg = Msg::Enc { enc: 1, decs: vec![(0, 0, 2), (1, 1, 3)] })]), "MessageError NonRoot_0 TooManyDecryptors");
+    add("v2_sub_no_decryptors", s, n, v2(&|t| t.subs = vec![sub(&|x| x.msg = Msg::Enc { enc: 1, decs: vec![] })]), "MessageError NonRoot_0 NoDecryptors");
+    add("v2_root_curve_mismatch", s, n, v2(&|t| t.root.msg = Msg::Enc { enc: 1, decs: vec![(1, 0, 1)] }), "MessageError Root MismatchingDecryptorCurves");
+    add("v2_root_zero_decryptors", s, n, v2(&|t| t.root.msg = Msg::Enc { enc: 1, decs: vec![(1, 1, 0)] }), "MessageError Root NoDecryptorsForCurveType");
+    // references: per intent (4) and in total (6)
+    add("v2_sub_refs_4", s, n, v2(&|t| t.subs = vec![sub(&|x| x.refs = 4)]), "accept");
+    add("v2_sub_refs_5", s, n, v2(&|t| t.subs = vec![sub(&|x| x.refs = 5)]), "TooManyReferences NonRoot_0");
+    add("v2_refs_total_4_plus_2", s, n, v2(&|t| { t.root.refs = 4; t.subs = vec![sub(&|x| x.refs = 2)]; }), "accept");
+    add("v2_refs_total_4_plus_3", s, n, v2(&|t| { t.root.refs = 4; t.subs = vec![sub(&|x| x.refs = 3)]; }), "TooManyReferences Across");
+    add("v2_refs_total_2_2_2", s, n, v2(&|t| { t.root.refs = 2; t.subs = vec![sub(&|x| x.refs = 2), sub(&|x| x.refs = 2)]; }), "accept");
+    add("v2_refs_total_2_2_3", s, n, v2(&|t| { t.root.refs = 2; t.subs = vec![sub(&|x| x.refs = 2), sub(&|x| x.refs = 3)]; }), "TooManyReferences Across");
+    add("partial_refs_total_4_plus_3", s, n, pt(&|t| { t.root.refs = 4; t.subs = vec![sub(&|x| x.refs = 3)]; }), "TooManyReferences Across");
+    add("v2_order_refs_total_before_sigs_total", s, n, v2(&|t| { t.root.refs = 4; t.root.sigs = 3; t.subs = vec![sub(&|x| { x.refs = 3; x.sigs = 3; }), sub(&|x| x.sigs = 2)]; }), "TooManyReferences Across");
+    // instruction count (12): root has `children` yields, a subintent additionally its final yield
+    add("v2_root_instructions_12", s, n, v2(&|t| t.root.fillers = 12), "accept");
+    add("v2_root_instructions_13", s, n, v2(&|t| t.root.fillers = 13), "TooManyInstructions Root");
+    add("v2_sub1_instructions_12", s, n, v2(&|t| t.subs = vec![sub(&|_| {}), sub(&|x| x.fillers = 11)]), "accept");
+    add("v2_sub1_instructions_13", s, n, v2(&|t| t.subs = vec![sub(&|_| {}), sub(&|x| x.fillers = 12)]), "TooManyInstructions NonRoot_1");
+    add("partial_root_instructions_13", s, n, pt(&|t| t.root.fillers = 12), "TooManyInstructions Root");
+    add("partial_root_instructions_12", s, n, pt(&|t| t.root.fillers = 11), "accept");
+    add("v2_order_root_instructions_before_sub_header", s, n, v2(&|t| { t.root.fillers = 13; t.subs = vec![sub(&|x| x.network = 7)]; }), "TooManyInstructions Root");
+    add("v2_order_sub0_header_before_sub1_message", s, n, v2(&|t| t.subs = vec![sub(&|x| x.end = 100), sub(&|x| x.msg = Msg::Plain { mime: 7, msg: 0, bytes: false })]), "HeaderError NonRoot_0 InvalidEpochRange");
+    // preparation limits: blobs (2), children (2), subintents (3), signature batches (3), payload (6000)
+    add("v2_root_blobs_2", s, n, v2(&|t| t.root.blobs = 2), "accept");
+    add("v2_root_blobs_3", s, n, v2(&|t| t.root.blobs = 3), "PrepareTooManyValues VBlob");
+    add("v2_sub_blobs_2", s, n, v2(&|t| t.subs = vec![sub(&|x| x.blobs = 2)]), "accept");
+    add("v2_sub_blobs_3", s, n, v2(&|t| t.subs = vec![sub(&|x| x.blobs = 3)]), "PrepareTooManyValues VBlob");
+    add("v2_children_2", s, n, v2(&|t| t.subs = vec![sub(&|_| {}), sub(&|_| {})]), "accept");
+    add("v2_children_3", s, n, v2(&|t| t.subs = vec![sub(&|_| {}), sub(&|_| {}), sub(&|_| {})]), "PrepareTooManyValues VChildSubintentSpecifier");
+    add("partial_children_3", s, n, pt(&|t| t.subs = vec![sub(&|_| {}), sub(&|_| {}), sub(&|_| {})]), "PrepareTooManyValues VChildSubintentSpecifier");
+    add("v2_sub_children_3", s, n, v2(&|t| t.subs = vec![sub(&|_| {}), sub(&|x| x.parent = Some(0)), sub(&|x| x.parent = Some(0)), sub(&|x| x.parent = Some(0))]), "PrepareTooManyValues VSubintent");
+    add("v2_subintents_3_nested", s, n, v2(&|t| t.subs = vec![sub(&|_| {}), sub(&|_| {}), sub(&|x| x.parent = Some(0))]), "accept");
+    add("v2_subintents_4_nested", s, n, v2(&|t| t.subs = vec![sub(&|_| {}), sub(&|_| {}), sub(&|x| x.parent = Some(0)), sub(&|x| x.parent = Some(0))]), "PrepareTooManyValues VSubintent");
+    add("v2_batches_4_over_limit", s, n, v2(&|t| { t.subs = vec![sub(&|_| {}), sub(&|_| {}), sub(&|x| x.parent = Some(0))]; t.batch_delta = 1; }), "PrepareTooManyValues VSubintentSignatureBatches");
+    add("v2_order_blobs_before_children", s, n, v2(&|t| { t.root.blobs = 3; t.subs = vec![sub(&|_| {}), sub(&|_| {}), sub(&|_| {})]; }), "PrepareTooManyValues VBlob");
+    add("v2_order_subintent_count_before_sub_blobs", s, n, v2(&|t| t.subs = vec![sub(&|x| x.blobs = 3), sub(&|_| {}), sub(&|x| x.parent = Some(0)), sub(&|x| x.parent = Some(0))]), "PrepareTooManyValues VSubintent");
+    add("v2_order_prepare_before_sigs", s, n, v2(&|t| { t.root.sigs = 4; t.root.blobs = 3; }), "PrepareTooManyValues VBlob");
+    for (tg, e) in [(5999usize, "accept"), (6000, "accept"), (6001, "PrepareTransactionTooLarge")] {
+        add(&format!("v2_payload_{}", tg), s, n, v2(&|t| t.payload_target = Some(tg)), e);
+    }
+    add("partial_payload_not_limited", s, n, pt(&|t| t.payload_target = Some(7000)), "accept");
+    // V2 switched off
+    add("v2_not_permitted_at_prepare", "babylon", n, v2(&|t| t.tip = 0), "PrepareTransactionTypeNotSupported");
+    add("partial_not_permitted_at_prepare", "babylon", n, pt(&|_| {}), "PrepareTransactionTypeNotSupported");
+    add("v2_not_allowed_at_validation", "variant_babylon_v2_disallowed", n, v2(&|t| t.tip = 0), "TransactionVersionNotPermitted");
+    add("v2_order_not_allowed_before_sigs", "variant_babylon_v2_disallowed", n, v2(&|t| { t.tip = 0; t.root.sigs = 17; }), "TransactionVersionNotPermitted");
+    add("v2_allowed_babylon_limits", "variant_babylon_v2", n, v2(&|t| t.tip = 0), "accept");
+    add("v2_babylon_limits_tip_1000", "variant_babylon_v2", n, v2(&|t| t.tip = 1000), "accept");
+    add("v2_babylon_limits_tip_1001", "variant_babylon_v2", n, v2(&|t| t.tip = 1001), "HeaderError Root InvalidTip");
+
+    // ======================= V2 / partial under the shipped (latest) configuration =======================
+    let l = "latest";
+    let v2l = |f: &dyn Fn(&mut TxSpec)| {
+        let mut r = ispec(100, 105);
+        r.sigs = 1;
+        let mut t = tspec(Kind::V2, 0, r, vec![]);
+        f(&mut t);
+        t
+    };
+    add("v2_base", l, n, v2l(&|_| {}), "accept");
+    add("v2_tip_1000000", l, n, v2l(&|t| t.tip = 1_000_000), "accept");
+    add("v2_tip_1000001", l, n, v2l(&|t| t.tip = 1_000_001), "HeaderError Root InvalidTip");
+    add("v2_root_sigs_16", l, n, v2l(&|t| t.root.sigs = 16), "accept");
+    add("v2_root_sigs_17", l, n, v2l(&|t| t.root.sigs = 17), "TooManySignatures Root");
+    add("v2_batch_sigs_16", l, n, v2l(&|t| t.subs = vec![sub(&|x| x.sigs = 16)]), "accept");
+    add("v2_batch_sigs_17", l, n, v2l(&|t| t.subs = vec![sub(&|x| x.sigs = 17)]), "TooManySignatures NonRoot_0");
+    add("v2_sigs_total_64", l, n, v2l(&|t| { t.root.sigs = 16; t.subs = vec![sub(&|x| x.sigs = 16), sub(&|x| x.sigs = 16), sub(&|x| x.sigs = 15)]; }), "accept");
+    add("v2_sigs_total_65", l, n, v2l(&|t| { t.root.sigs = 16; t.subs = vec![sub(&|x| x.sigs = 16), sub(&|x| x.sigs = 16), sub(&|x| x.sigs = 16)]; }), "TooManySignatures Across");
+    add("partial_sigs_total_64", l, n, {
+        let mut t = v2l(&|t| { t.root.sigs = 16; t.subs = vec![sub(&|x| x.sigs = 16), sub(&|x| x.sigs = 16), sub(&|x| x.sigs = 16)]; });
+        t.kind = Kind::Partial;
+        t
+    }, "accept");
+    add("partial_sigs_total_65", l, n, {
+        let mut t = v2l(&|t| { t.root.sigs = 16; t.subs = vec![sub(&|x| x.sigs = 16), sub(&|x| x.sigs = 16), sub(&|x| x.sigs = 16), sub(&|x| x.sigs = 1)]; });
+        t.kind = Kind::Partial;
+        t
+    }, "TooManySignatures Across");
+    add("v2_children_32", l, n, v2l(&|t| t.subs = (0..32).map(|_| sub(&|_| {})).collect()), "accept");
+    add("v2_children_33", l, n, v2l(&|t| t.subs = (0..33).map(|_| sub(&|_| {})).collect()), "PrepareTooManyValues VChildSubintentSpecifier");
+    add("v2_subintents_33_nested", l, n, v2l(&|t| t.subs = (0..33).map(|i| sub(&|x| x.parent = if i == 32 { Some(0) } else { None })).collect()), "PrepareTooManyValues VSubintent");
+    add("v2_sub_refs_512", l, n, v2l(&|t| t.subs = vec![sub(&|x| x.refs = 512)]), "accept");
+    add("v2_sub_refs_513", l, n, v2l(&|t| t.subs = vec![sub(&|x| x.refs = 513)]), "TooManyReferences NonRoot_0");
+    add("v2_refs_total_513", l, n, v2l(&|t| { t.root.refs = 512; t.subs = vec![sub(&|x| x.refs = 1)]; }), "TooManyReferences Across");
+    add("v2_refs_total_512", l, n, v2l(&|t| { t.root.refs = 511; t.subs = vec![sub(&|x| x.refs = 1)]; }), "accept");
+    add("v2_root_instructions_1000", l, n, v2l(&|t| t.root.fillers = 1000), "accept");
+    add("v2_root_instructions_1001", l, n, v2l(&|t| t.root.fillers = 1001), "TooManyInstructions Root");
+    add("v2_epoch_8640", l, n, v2l(&|t| t.root.end = 100 + 8640), "accept");
+    add("v2_epoch_8641", l, n, v2l(&|t| t.root.end = 100 + 8641), "HeaderError Root InvalidEpochRange");
+    add("v2_payload_1mib", l, n, v2l(&|t| t.payload_target = Some(1024 * 1024)), "accept");
+    add("v2_payload_1mib_plus1", l, n, v2l(&|t| t.payload_target = Some(1024 * 1024 + 1)), "PrepareTransactionTooLarge");
+    add("v2_blobs_64", l, n, v2l(&|t| t.root.blobs = 64), "accept");
+    add("v2_blobs_65", l, n, v2l(&|t| t.root.blobs = 65), "PrepareTooManyValues VBlob");
+    v
+}
+
 // ------------------------------------------------------------------------------------------------
 // generator
 // ------------------------------------------------------------------------------------------------
-fn configs(rng: &mut Rng) -> (TransactionValidationConfig, &'static str) {
-    match rng.below(10) {
-        0 | 1 => (TransactionValidationConfig::babylon(), "babylon"),
-        2..=5 => (TransactionValidationConfig::latest(), "latest"),
-        6..=8 => {
+fn config_named(name: &str) -> TransactionValidationConfig {
+    match name {
+        "babylon" => TransactionValidationConfig::babylon(),
+        "latest" => TransactionValidationConfig::latest(),
+        "variant_small" | "variant_small_tight_totals" => {
             // small limits so that every branch is cheap to reach
             let mut c = TransactionValidationConfig::latest();
             c.max_signer_signatures_per_intent = 3;
@@ -735,20 +1149,41 @@ fn configs(rng: &mut Rng) -> (TransactionValidationConfig, &'static str) {
             c.preparation_settings.max_subintents_per_transaction = 3;
             c.preparation_settings.max_blobs = 2;
             c.preparation_settings.max_user_payload_length = 6000;
-            (c, "variant_small")
+            if name == "variant_small_tight_totals" {
+                // totals below the per-intent limits: the across-transaction checks become reachable for V1
+                c.max_total_signature_validations = 3;
+                c.max_total_references = 3;
+            }
+            c
         }
-        _ => {
+        "variant_babylon_v2" | "variant_babylon_v2_disallowed" => {
             // babylon limits, but V2 reachable
             let mut c = TransactionValidationConfig::babylon();
             c.preparation_settings = PreparationSettings::latest();
             c.max_subintent_depth = 2;
             c.max_tip_basis_points = 1000;
-            if rng.chance(1, 4) {
+            if name == "variant_babylon_v2_disallowed" {
                 c.v2_transactions_allowed = false;
             }
-            (c, "variant_babylon_v2")
+            c
         }
+        other => panic!("unknown config {}", other),
     }
+}
+fn configs(rng: &mut Rng) -> (TransactionValidationConfig, &'static str) {
+    let name = match rng.below(10) {
+        0 | 1 => "babylon",
+        2..=5 => "latest",
+        6..=8 => "variant_small",
+        _ => {
+            if rng.chance(1, 4) {
+                "variant_babylon_v2_disallowed"
+            } else {
+                "variant_babylon_v2"
+            }
+        }
+    };
+    (config_named(name), name)
 }
 
 /// limit-1 / limit / limit+1, or a moderate value when the limit is out of reach
@@ -1100,17 +1535,40 @@ fn main() {
     );
     let mut cw = CaseWriter::new("RV.Corr.C34_run RV.Model.C34_Validate", "check");
     let root = Rng::new(args.seed);
+    let family = boundary_family();
+    for b in family.iter() {
+        report.floor(&b.class, 1);
+    }
     for i in 0..args.cases {
         let mut rng = root.fork(i as u64);
-        let (cfg, cfg_name) = configs(&mut rng);
-        let net = if rng.chance(1, 8) { None } else { Some(NET) };
+        let boundary = family.get(i);
+        let (cfg, cfg_name) = match boundary {
+            Some(b) => (config_named(b.cfg_name), b.cfg_name),
+            None => configs(&mut rng),
+        };
+        let net = match boundary {
+            Some(b) => b.net,
+            None => {
+                if rng.chance(1, 8) {
+                    None
+                } else {
+                    Some(NET)
+                }
+            }
+        };
         let validator = match net {
             Some(n) => TransactionValidator::new_with_static_config(cfg, n),
             None => TransactionValidator::new_with_static_config_network_agnostic(cfg),
         };
         let mut tags = vec![];
-        let spec = gen_spec(&mut rng, &cfg, &mut tags);
-        let salt = rng.next_u64();
+        let spec = match boundary {
+            Some(b) => {
+                tags.push("boundary_family".to_string());
+                b.spec.clone()
+            }
+            None => gen_spec(&mut rng, &cfg, &mut tags),
+        };
+        let salt = if boundary.is_some() { 0x5eed_0000 + i as u64 } else { rng.next_u64() };
         let (raw, padded) = build_with_target(&spec, salt);
         let (out, refs) = run_impl(&spec.kind, &raw, &validator);
         let mut sum = summarize(&spec, raw.len(), padded);
@@ -1139,6 +1597,12 @@ fn main() {
         };
         report.count(&format!("out_{}", okind));
         let input = json!({"config": cfg_name, "config_coq": config_coq(&cfg), "net": net, "summary": sum_coq(&sum), "fields": tags, "out": format!("{:?}", out)});
+        if let Some(b) = boundary {
+            report.count(&b.class);
+            if verdict_tag(&out) != b.expect {
+                report.oracle_failure(i, "", &format!("boundary case {}: expected [{}] got [{}]", b.class, b.expect, verdict_tag(&out)), input.clone());
+            }
+        }
         // direct oracle
         match &out {
             Out::Unexpected(what) => {
